@@ -451,65 +451,88 @@ Perms(k) == {f \in [1..k -> 1..k] : \A x, y \in 1..k : f[x] = f[y] => x = y}
 FitsPermuted(n, b, ds) ==
   \E f \in Perms(Len(n.a)) : \A q \in 1..Len(b) : b[q][1] <= Len(n.a) /\ n.a[f[b[q][1]]] \in ds[b[q][2]]
 
-\* closure of a candidate set under kinds realised by NOTHING (pattern = the bare hole, e.g. unary plus in C++)
-RECURSIVE CloseTransparent(_, _, _)
-CloseTransparent(nodes, impl, S) ==
-  LET more == {m \in 1..Len(nodes) : m \notin S /\ H(1) \in impl[m] /\ Len(nodes[m].a) = 1 /\ nodes[m].a[1] \in S}
-  IN  IF more = {} THEN S ELSE CloseTransparent(nodes, impl, S \cup more)
-
 (*************************** the machine ***********************************)
-\* env-independent part of a program: which row defines a variable (first assignment), parameter nodes
 ParamNames(prog) == {prog.params[j].name : j \in 1..Len(prog.params)}
 AssignIdx(prog, v) == {j \in 1..Len(prog.stmts) : prog.stmts[j].op = "assign" /\ prog.stmts[j].var = v}
 MinOf(S) == CHOOSE x \in S : \A y \in S : x <= y
-DefRow(prog, v) == IF AssignIdx(prog, v) = {} THEN 0 ELSE prog.stmts[MinOf(AssignIdx(prog, v))].t
-
 \* symbol node of a parameter name ({} if the graph does not use the argument)
 ParamNodes(nodes, name) == {m \in 1..Len(nodes) : nodes[m].k = "symbol" /\ nodes[m].n = name}
-
 Top(nodes) == 1..Len(nodes)
 Fail(clause, i, what) == <<clause, i, what>>
-
-\* Denotations of all rows, in order.  st = [ds |-> sequence of node sets, fl |-> set of failures]
 ConstNodes(nodes) == {m \in 1..Len(nodes) : nodes[m].k = "constant"}
 
+\* Everything that does not change while a program runs, computed ONCE per program:
+\*   defs    variable -> row of its first assignment        nvals  value of each constant node
+\*   topops  per node, the top operators of its patterns    transp nodes realised by nothing (bare hole)
+RECURSIVE DefMap(_, _, _)
+DefMap(prog, j, acc) ==
+  IF j > Len(prog.stmts) THEN acc
+  ELSE LET s == prog.stmts[j]
+       IN  DefMap(prog, j + 1, IF s.op = "assign" /\ s.var \notin DOMAIN acc THEN acc @@ (s.var :> s.t) ELSE acc)
+RECURSIVE NodeVals(_, _, _, _)
+NodeVals(target, nodes, m, acc) ==
+  IF m > Len(nodes) THEN acc
+  ELSE NodeVals(target, nodes, m + 1, Append(acc, IF nodes[m].k = "constant" THEN NodeVal(target, nodes[m]) ELSE NoVal))
+RECURSIVE TopOps(_, _, _)
+TopOps(impl, m, acc) == IF m > Len(impl) THEN acc ELSE TopOps(impl, m + 1, Append(acc, {p.o : p \in impl[m]}))
+Context(target, nodes, impl, prog) ==
+  LET tops == TopOps(impl, 1, <<>>)
+  IN  [target |-> target, nodes |-> nodes, impl |-> impl, prog |-> prog,
+       defs |-> DefMap(prog, 1, <<>>),
+       pnames |-> ParamNames(prog),
+       nvals |-> NodeVals(target, nodes, 1, <<>>),
+       consts |-> ConstNodes(nodes),
+       topops |-> tops,
+       transp |-> {m \in 1..Len(nodes) : "hole" \in tops[m] /\ Len(nodes[m].a) = 1},
+       opnodes |-> {m \in 1..Len(nodes) : nodes[m].k \notin {"symbol", "constant"}}]
+DefRow(cx, v) == IF v \in DOMAIN cx.defs THEN cx.defs[v] ELSE 0
+
+\* closure of a candidate set under kinds realised by NOTHING (pattern = the bare hole, e.g. unary plus in C++)
+RECURSIVE CloseTransparent(_, _)
+CloseTransparent(cx, S) ==
+  IF cx.transp = {} THEN S
+  ELSE LET more == {m \in cx.transp : m \notin S /\ cx.nodes[m].a[1] \in S}
+       IN  IF more = {} THEN S ELSE CloseTransparent(cx, S \cup more)
+
 \* same number as some constant node, but wrong class / format?
-ConstFailure(target, nodes, prog, t) ==
-  LET rv == RowVal(target, prog.rows, t)
-      sameNumber == {m \in ConstNodes(nodes) : ConstNumberOnly(NodeVal(target, nodes[m]), rv)}
+ConstFailure(cx, t) ==
+  LET rv == RowVal(cx.target, cx.prog.rows, t)
+      sameNumber == {m \in cx.consts : ConstNumberOnly(cx.nvals[m], rv)}
   IN  IF sameNumber # {} THEN "constant_type" ELSE "constant_value"
 
 \* Denotation d of row i and the PENDING failures f of its sub-tree.  Failures stay pending until the
 \* row is known to stand at an operand position (hole) of a matched parent or to be a whole statement
 \* term: rows in the interior of a matched multi-level pattern, and the literal inside a typed
 \* constructor, denote nothing by themselves and their failures are dropped.
-DenRow(target, nodes, impl, prog, st, i) ==
-  LET rows == prog.rows
+DenRow(cx, st, i) ==
+  LET rows == cx.prog.rows
+      nodes == cx.nodes
+      impl == cx.impl
       r == rows[i]
       ds == st.ds
       pf == st.pf
   IN  IF r.o = "var" THEN
-        (IF r.s \in ParamNames(prog) THEN
-            [d |-> CloseTransparent(nodes, impl, ParamNodes(nodes, r.s)), f |-> {}]
-         ELSE LET d == DefRow(prog, r.s)
+        (IF r.s \in cx.pnames THEN
+            [d |-> CloseTransparent(cx, ParamNodes(nodes, r.s)), f |-> {}]
+         ELSE LET d == DefRow(cx, r.s)
               IN  IF d = 0 \/ d >= i THEN [d |-> Top(nodes), f |-> {Fail("def_before_use", i, r.s)}]
                   ELSE [d |-> ds[d], f |-> {}])
       ELSE
-        LET rv == RowVal(target, rows, i)
-            consts == IF rv.ok THEN {m \in ConstNodes(nodes) : ConstDenotes(target, NodeVal(target, nodes[m]), rv)} ELSE {}
+        LET rv == RowVal(cx.target, rows, i)
+            consts == IF rv.ok THEN {m \in cx.consts : ConstDenotes(cx.target, cx.nvals[m], rv)} ELSE {}
+            cands == {m \in cx.opnodes : r.o \in cx.topops[m]}
             fits(m, p) == LET b == Bind(rows, p, i) IN b # NoBind /\ b # <<>> /\ FitsExact(nodes[m], b, ds)
-            ops == {m \in 1..Len(nodes) : nodes[m].k \notin {"symbol", "constant"} /\ \E p \in impl[m] : fits(m, p)}
-        IN  IF consts # {} THEN [d |-> CloseTransparent(nodes, impl, consts \cup ops), f |-> {}]
+            ops == {m \in cands : \E p \in impl[m] : fits(m, p)}
+        IN  IF consts # {} THEN [d |-> CloseTransparent(cx, consts \cup ops), f |-> {}]
             ELSE IF ops # {} THEN
               LET mm == CHOOSE m \in ops : TRUE
                   pp == CHOOSE p \in impl[mm] : fits(mm, p)
                   b == Bind(rows, pp, i)
-              IN  [d |-> CloseTransparent(nodes, impl, ops), f |-> UNION {pf[b[q][2]] : q \in 1..Len(b)}]
+              IN  [d |-> CloseTransparent(cx, ops), f |-> UNION {pf[b[q][2]] : q \in 1..Len(b)}]
             ELSE IF rv.ok THEN
-              [d |-> Top(nodes), f |-> {Fail(ConstFailure(target, nodes, prog, i), i, r.o)}]
+              [d |-> Top(nodes), f |-> {Fail(ConstFailure(cx, i), i, r.o)}]
             ELSE
-              LET cand(F(_, _)) == {m \in 1..Len(nodes) : nodes[m].k \notin {"symbol", "constant"} /\
-                                      \E p \in impl[m] : LET b == Bind(rows, p, i) IN b # NoBind /\ b # <<>> /\ F(nodes[m], b)}
+              LET cand(F(_, _)) == {m \in cands : \E p \in impl[m] : LET b == Bind(rows, p, i) IN b # NoBind /\ b # <<>> /\ F(nodes[m], b)}
                   permuted == cand(LAMBDA n, b : FitsPermuted(n, b, ds))
                   relaxed == cand(LAMBDA n, b : FitsRelaxed(n, b, ds, rows))
                   below == UNION {pf[r.a[j]] : j \in 1..Len(r.a)}
@@ -517,22 +540,22 @@ DenRow(target, nodes, impl, prog, st, i) ==
                   ELSE IF relaxed # {} THEN [d |-> relaxed, f |-> below \cup {Fail("distinct_share", i, r.o)}]
                   ELSE [d |-> Top(nodes), f |-> below \cup {Fail("operator", i, r.o)}]
 
-RECURSIVE DenAll(_, _, _, _, _, _)
-DenAll(target, nodes, impl, prog, st, i) ==
-  IF i > Len(prog.rows) THEN st
-  ELSE LET x == DenRow(target, nodes, impl, prog, st, i)
-       IN  DenAll(target, nodes, impl, prog, [ds |-> Append(st.ds, x.d), pf |-> Append(st.pf, x.f)], i + 1)
+RECURSIVE DenAll(_, _, _)
+DenAll(cx, st, i) ==
+  IF i > Len(cx.prog.rows) THEN st
+  ELSE LET x == DenRow(cx, st, i)
+       IN  DenAll(cx, [ds |-> Append(st.ds, x.d), pf |-> Append(st.pf, x.f)], i + 1)
 
 \* text-level discipline
-StmtOf(prog, j) == prog.stmts[j]
 SingleAssignmentFails(prog) ==
   {Fail("single_assignment", 0, prog.stmts[j].var) : j \in {jj \in 1..Len(prog.stmts) :
        LET s == prog.stmts[jj] IN s.op = "assign" /\ (s.var \in ParamNames(prog) \/ \E k \in 1..(jj - 1) : prog.stmts[k].op = "assign" /\ prog.stmts[k].var = s.var)}}
 
-\* Verdict of the machine on a whole program: set of failures <<clause, row, what>>.
-\* tnames(t): acceptable spellings of IR type t in the target; root: the node the program must return.
+\* Verdict of the machine on a whole program: [fails |-> set of <<clause, row, what>>, ds |-> the
+\* denotation of every row].  root: the node the program must return.
 RunProgram(target, nodes, root, impl, prog) ==
-  LET st == DenAll(target, nodes, impl, prog, [ds |-> <<>>, pf |-> <<>>], 1)
+  LET cx == Context(target, nodes, impl, prog)
+      st == DenAll(cx, [ds |-> <<>>, pf |-> <<>>], 1)
       ds == st.ds
       stmtFails(j) ==
         LET s == prog.stmts[j]
@@ -550,18 +573,16 @@ RunProgram(target, nodes, root, impl, prog) ==
               [] s.op = "assert" ->
                    (LET defined == s.var \in ParamNames(prog) \/ \E k \in 1..(j - 1) : prog.stmts[k].op = "assign" /\ prog.stmts[k].var = s.var
                         den == IF s.var \in ParamNames(prog) THEN ParamNodes(nodes, s.var)
-                               ELSE IF DefRow(prog, s.var) = 0 THEN {} ELSE ds[DefRow(prog, s.var)]
+                               ELSE IF DefRow(cx, s.var) = 0 THEN {} ELSE ds[DefRow(cx, s.var)]
                     IN  IF ~defined THEN {Fail("assert_target", 0, s.var)}
                         ELSE IF den # {} /\ den # Top(nodes) /\ \A m \in den : TypeNames(target, nodes[m].t) # {} /\ s.ty \notin TypeNames(target, nodes[m].t)
                              THEN {Fail("assert_target", 0, s.var)} ELSE {})
               [] OTHER -> {}
       nret == Cardinality({j \in 1..Len(prog.stmts) : prog.stmts[j].op = "return"})
-  IN  SingleAssignmentFails(prog)
-      \cup UNION {stmtFails(j) : j \in 1..Len(prog.stmts)}
-      \cup (IF nret # 1 \/ prog.stmts[Len(prog.stmts)].op # "return" THEN {Fail("return_root", 0, "no single final return")} ELSE {})
-
-\* the denotations themselves (for the typing clauses of a target)
-Denotations(target, nodes, impl, prog) == DenAll(target, nodes, impl, prog, [ds |-> <<>>, pf |-> <<>>], 1).ds
+  IN  [ds |-> ds,
+       fails |-> SingleAssignmentFails(prog)
+                 \cup UNION {stmtFails(j) : j \in 1..Len(prog.stmts)}
+                 \cup (IF nret # 1 \/ prog.stmts[Len(prog.stmts)].op # "return" THEN {Fail("return_root", 0, "no single final return")} ELSE {})]
 
 \* impl table of a graph for one of the three executable targets: wild-carded kinds use the
 \* pattern handed in (the package's own template, parsed), everything else the table above
@@ -569,7 +590,7 @@ RECURSIVE BuildImpl(_, _, _, _, _)
 BuildImpl(target, nodes, wild, m, acc) ==
   IF m > Len(nodes) THEN acc
   ELSE LET n == nodes[m]
-           tn == IF n.k = "complex" /\ target = "cpp" THEN TypeNames(target, n.t) ELSE TypeNames(target, n.t)
+           tn == TypeNames(target, n.t)
            own == IF n.k \in {"symbol", "constant"} THEN {} ELSE Impl(target, n.k, tn, tn)
            w == IF n.k \in WildKinds(target) /\ n.k \in DOMAIN wild THEN {wild[n.k]} ELSE {}
        IN  BuildImpl(target, nodes, wild, m + 1, Append(acc, IF n.k \in WildKinds(target) THEN w ELSE own))
